@@ -244,7 +244,7 @@ structure All (C : CongFam) (P : Processor σ) (sc : Bool) (n : Nat) : Prop wher
   f : ∀ hs f s, C.relF f (visitFnBody P sc n hs f s).1
   st : ∀ x s, C.relS x (visitStmt P sc n x s).1
   l : ∀ x s, C.relL x (visitLast P sc n x s).1
-  b : ∀ pushes b s, C.relB b (visitBlock P sc n pushes b s).1
+  b : ∀ pushes b s, C.relBo b (visitBlock P sc n pushes b s).1
 
 variable {P sc} {C : CongFam}
 
@@ -258,7 +258,7 @@ theorem all_zero : All C P sc 0 where
   f := fun hs f s => by simp only [visitFnBody]; exact C.reflF f
   st := fun x s => by simp only [visitStmt]; exact C.reflS x
   l := fun x s => by simp only [visitLast]; exact C.reflL x
-  b := fun pushes b s => by simp only [visitBlock]; exact C.reflB b
+  b := fun pushes b s => by simp only [visitBlock]; exact C.reflBo b
 
 theorem nodeKids_rel {n : Nat} (A : All C P sc n) (e1 : Expr) (s1 : σ) :
     C.relE e1 (nodeKids P sc n e1 s1).1 ∧ C.relT e1 (nodeKids P sc n e1 s1).1 := by
@@ -339,10 +339,10 @@ theorem insertLocals_rel (H : HooksRel C P) : ∀ (names : List TName) (vs : Lis
     exact ⟨by rw [(insertLocals_rel H ns vs _).1],
       .cons (H.insertLocalVal n v s) (insertLocals_rel H ns vs _).2⟩
 
-theorem scope_visit_rel (H : HooksRel C P) {n : Nat} (A : All C P sc n) (b : Block) (c : Option Expr)
+theorem scope_visit_rel (H : HooksRel C P) {n : Nat} (A : All C P sc n) (b : Block)
     (pushes : Bool) (s s' : σ) :
-    C.relB b (visitBlock P sc n pushes (P.scope b c s).1.1 s').1 :=
-  C.transB (H.scopeB b c s) (A.b _ _ _)
+    C.relB b (visitBlock P sc n pushes (P.scope b none s).1.1 s').1 :=
+  C.transB (H.scopeB b s) (C.boToB (A.b _ _ _))
 
 theorem fnBody_rel (H : HooksRel C P) {n : Nat} (A : All C P sc n) (hs : Bool) (f : FnBody) (s : σ) :
     C.relF f (visitFnBody P sc (n + 1) hs f s).1 := by
@@ -351,9 +351,9 @@ theorem fnBody_rel (H : HooksRel C P) {n : Nat} (A : All C P sc n) (hs : Bool) (
     simp only [visitFnBody]
     cases sc
     · simp only [Bool.false_eq_true, if_false]
-      exact C.fnBody (mapS_names (tnameTy_name _) _ _).symm (scope_visit_rel H A _ _ _ _ _)
+      exact C.fnBody (mapS_names (tnameTy_name _) _ _).symm (scope_visit_rel H A _ _ _ _)
     · simp only [if_true]
-      refine C.fnBody ?_ (scope_visit_rel H A _ _ _ _ _)
+      refine C.fnBody ?_ (scope_visit_rel H A _ _ _ _)
       rw [mapS_names (tnameInsert_name H.insert), mapS_names (tnameTy_name _)]
 
 theorem stmtKids_rel (H : HooksRel C P) {n : Nat} (A : All C P sc n) (st : Stmt) (s2 : σ) :
@@ -368,7 +368,7 @@ theorem stmtKids_rel (H : HooksRel C P) {n : Nat} (A : All C P sc n) (st : Stmt)
   | callStmt c => exact C.reflS _
   | doBlock b =>
     simp only [stmtKids]
-    exact C.doBlock (scope_visit_rel H A _ _ _ _ _)
+    exact C.doBlock (scope_visit_rel H A _ _ _ _)
   | function name m body =>
     cases name with
     | nil => exact C.reflS _
@@ -383,30 +383,30 @@ theorem stmtKids_rel (H : HooksRel C P) {n : Nat} (A : All C P sc n) (st : Stmt)
       · cases body with
         | mk params variadic varTy ret generics attrs blk =>
           simp only [stmtKids, Bool.false_eq_true, if_false, hroot]
-          exact C.function (C.fnBody (mapS_names (tnameTy_name _) _ _).symm (scope_visit_rel H A _ _ _ _ _))
+          exact C.function (C.fnBody (mapS_names (tnameTy_name _) _ _).symm (scope_visit_rel H A _ _ _ _))
       · simp only [stmtKids, if_true, hroot]
         exact C.function (A.f _ _ _)
   | gfor names values body =>
     simp only [stmtKids]
     cases sc
     · simp only [Bool.false_eq_true, if_false]
-      exact C.gfor (mapS_names (tnameTy_name _) _ _).symm (mapS_rel A.e _ _) (scope_visit_rel H A _ _ _ _ _)
+      exact C.gfor (mapS_names (tnameTy_name _) _ _).symm (mapS_rel A.e _ _) (scope_visit_rel H A _ _ _ _)
     · simp only [if_true]
-      refine C.gfor ?_ (mapS_rel A.e _ _) (scope_visit_rel H A _ _ _ _ _)
+      refine C.gfor ?_ (mapS_rel A.e _ _) (scope_visit_rel H A _ _ _ _)
       rw [mapS_names (tnameTy_name _), mapS_names (tnameInsert_name H.insert)]
   | nfor name start stop step body =>
     simp only [stmtKids]
     cases sc
     · simp only [Bool.false_eq_true, if_false]
-      exact C.nfor (tnameTy_name _ _ _).symm (A.e _ _) (A.e _ _) (optS_rel A.e _ _) (scope_visit_rel H A _ _ _ _ _)
+      exact C.nfor (tnameTy_name _ _ _).symm (A.e _ _) (A.e _ _) (optS_rel A.e _ _) (scope_visit_rel H A _ _ _ _)
     · simp only [if_true]
-      refine C.nfor ?_ (A.e _ _) (A.e _ _) (optS_rel A.e _ _) (scope_visit_rel H A _ _ _ _ _)
+      refine C.nfor ?_ (A.e _ _) (A.e _ _) (optS_rel A.e _ _) (scope_visit_rel H A _ _ _ _)
       rw [tnameInsert_name H.insert, tnameTy_name]
   | ifs branches els =>
     simp only [stmtKids]
     refine C.ifs ?_ ?_
-    · exact mapS_rel (R := PairRel C.relE C.relB) (fun p s => ⟨A.e _ _, scope_visit_rel H A _ _ _ _ _⟩) _ _
-    · exact optS_rel (R := C.relB) (fun b s => scope_visit_rel H A _ _ _ _ _) _ _
+    · exact mapS_rel (R := PairRel C.relE C.relB) (fun p s => ⟨A.e _ _, scope_visit_rel H A _ _ _ _⟩) _ _
+    · exact optS_rel (R := C.relB) (fun b s => scope_visit_rel H A _ _ _ _) _ _
   | localAssign kind names values =>
     simp only [stmtKids]
     cases sc
@@ -426,12 +426,12 @@ theorem stmtKids_rel (H : HooksRel C P) {n : Nat} (A : All C P sc n) (st : Stmt)
     simp only [stmtKids]
     cases sc
     · simp only [Bool.false_eq_true, if_false]
-      exact C.repeat_ (scope_visit_rel H A _ _ _ _ _) (C.transE (H.scopeC _ _ _) (A.e _ _))
+      exact C.repeat_ (C.transRep (H.scopeR _ _ _) (C.repOfOpen (A.b _ _ _) (A.e _ _)))
     · simp only [if_true]
-      exact C.repeat_ (scope_visit_rel H A _ _ _ _ _) (C.transE (H.scopeC _ _ _) (A.e _ _))
+      exact C.repeat_ (C.transRep (H.scopeR _ _ _) (C.repOfOpen (A.b _ _ _) (A.e _ _)))
   | while_ cond body =>
     simp only [stmtKids]
-    exact C.while_ (A.e _ _) (scope_visit_rel H A _ _ _ _ _)
+    exact C.while_ (A.e _ _) (scope_visit_rel H A _ _ _ _)
   | typeDecl ex name ty =>
     simp only [stmtKids]
     exact C.typeDecl
@@ -489,7 +489,7 @@ theorem all_succ (H : HooksRel C P) {n : Nat} (A : All C P sc n) : All C P sc (n
     rcases hb : (P.block b s0).1 with ⟨stmts, last⟩
     rw [hb] at h1
     simp only []
-    exact C.transB h1 (C.transB (C.block (mapS_rel A.st _ _) (optS_rel A.l _ _)) (H.afterBlock _ _))
+    exact C.transBo h1 (C.transBo (C.block (mapS_rel A.st _ _) (optS_rel A.l _ _)) (H.afterBlock _ _))
 
 theorem all_fuel (H : HooksRel C P) : ∀ n, All C P sc n
   | 0 => all_zero
@@ -500,7 +500,7 @@ pass (any fuel, either visitor flavour, any initial processor state) maps a bloc
 `C`-related block. -/
 theorem visit_rel (H : HooksRel C P) (sc : Bool) (fuel : Nat) (pushes : Bool) (b : Block) (s : σ) :
     C.relB b (visitBlock P sc fuel pushes b s).1 :=
-  (all_fuel H fuel).b pushes b s
+  C.boToB ((all_fuel H fuel).b pushes b s)
 
 theorem runDefault_rel (H : HooksRel C P) (b : Block) (s : σ) : C.relB b (runDefault P b s).1 :=
   visit_rel H false _ true b s
